@@ -593,6 +593,11 @@ class BaseAlignmentModel(ABC):
         return self._n_templates
 
 
+def _is_identity(quat: NDArray[np.float32]) -> bool:
+    """True if the quaternion (x, y, z, w) does not rotate."""
+    return bool(np.all(quat[:3] == 0))
+
+
 class RotationImplemented(BaseAlignmentModel):
     """
     An alignment model implemented with default rotation optimizer.
@@ -755,7 +760,7 @@ class RotationImplemented(BaseAlignmentModel):
         xp = backend or Backend()
         if out := self._template_mask_cache.get(xp):
             return out
-        if self._n_rotations > 1:
+        if self._n_rotations > 1 or not _is_identity(self.quaternions[0]):
             rotators = [Rotation.from_quat(r).inv() for r in self.quaternions]
             matrices = compose_matrices(
                 np.array(self._template.shape[-3:]) / 2 - 0.5, rotators
@@ -817,6 +822,10 @@ class RotationImplemented(BaseAlignmentModel):
             )
             template_input = xp.stack(_templates, axis=0)  # type: ignore
             mask_input = xp.stack(_masks, axis=0)  # type: ignore
+            if not self._is_multiple():
+                # a single template with a single (non-identity) rotation
+                template_input = template_input[0]
+                mask_input = mask_input[0]
         else:
             pool = DaskTaskPool.from_func(self.pre_transform)
             if self._n_templates > 1:
